@@ -1,316 +1,3 @@
-(** Snapshot of the s1.Interval lemmas developed for C19 (Proofs/C19_S1.v, property C19), kept under a
-    C10 name so that C10 builds on its own; when C19_S1.v lands, this file can become a re-export. *)
-(** C19, s1.Interval: the generated functions of s1/interval.go against circle membership.
-    Points of the circle are reals x in [-pi,pi] (in the rank space of Base/F64.v, which for
-    finite floats is the real value), with -pi identified with pi.  [memR] is written
-    independently of the code's Contains; it quantifies over ALL real points of the circle,
-    not only over floats (ContainsInterval <-> subset is false over float points only:
-    an inverted interval whose gap holds no float contains every float). *)
-From Coq Require Import ZArith Reals Floats Lra Bool List.
-From Flocq Require Import Core.Core IEEE754.BinarySingleNaN IEEE754.PrimFloat.
-From Geo Require Import Base.GoPrim Base.F64 Gen.S1.
-Local Open Scope R_scope.
-
-(** * The two float constants the code compares against *)
-Definition PI : PrimFloat.float := (0x1.921fb54442d18p+01)%float.
-Definition NPI : PrimFloat.float := (-0x1.921fb54442d18p+01)%float.
-Definition rpi : R := rank PI.
-
-Lemma nonnan_PI : nonnan PI. Proof. reflexivity. Qed.
-Lemma nonnan_NPI : nonnan NPI. Proof. reflexivity. Qed.
-
-Lemma nonnan_opp x : nonnan x -> nonnan (PrimFloat.opp x).
-Proof.
-  unfold nonnan. rewrite !go_isnan_equiv, opp_equiv, is_nan_Bopp. auto.
-Qed.
-Lemma rank_opp x : rank (PrimFloat.opp x) = - rank x.
-Proof.
-  unfold rank. rewrite opp_equiv.
-  destruct (Prim2B x) as [s|[|]| |s m e He]; simpl; try lra.
-  rewrite <- F2R_Zopp. destruct s; reflexivity.
-Qed.
-Lemma nonnan_abs x : nonnan x -> nonnan (PrimFloat.abs x).
-Proof.
-  unfold nonnan. rewrite !go_isnan_equiv, abs_equiv, is_nan_Babs. auto.
-Qed.
-Lemma rank_abs x : rank (PrimFloat.abs x) = Rabs (rank x).
-Proof.
-  unfold rank. rewrite abs_equiv. pose proof top_pos.
-  destruct (Prim2B x) as [s|[|]| |s m e He]; simpl.
-  - rewrite Rabs_R0. reflexivity.
-  - rewrite Rabs_Ropp, Rabs_pos_eq; lra.
-  - rewrite Rabs_pos_eq; lra.
-  - rewrite Rabs_R0. reflexivity.
-  - change (B2R (Babs (B754_finite s m e He)) = Rabs (B2R (B754_finite s m e He))).
-    apply B2R_Babs.
-Qed.
-Lemma isnan_abs x : go_isnan (PrimFloat.abs x) = go_isnan x.
-Proof. rewrite !go_isnan_equiv, abs_equiv, is_nan_Babs. reflexivity. Qed.
-
-Lemma rank_NPI : rank NPI = - rpi.
-Proof. change NPI with (PrimFloat.opp PI). apply rank_opp. Qed.
-Lemma rpi_pos : 0 < rpi.
-Proof.
-  assert (H : PrimFloat.ltb NPI PI = true) by reflexivity.
-  apply ltb_true_iff in H; try reflexivity. rewrite rank_NPI in H. unfold rpi in *. lra.
-Qed.
-Lemma rank_zero : rank 0%float = 0.
-Proof.
-  assert (H : PrimFloat.eqb (PrimFloat.opp 0%float) 0%float = true) by reflexivity.
-  apply eqb_true_iff in H; [|reflexivity|reflexivity]. rewrite rank_opp in H. lra.
-Qed.
-Lemma rpi_lt_top : rpi < top.
-Proof.
-  assert (H : PrimFloat.ltb PI infinity = true) by reflexivity.
-  apply ltb_true_iff in H; try reflexivity. rewrite rank_infinity in H. exact H.
-Qed.
-
-(** a float comparison against NaN is false: lets IsValid imply non-NaN *)
-Lemma leb_nan_l x y : go_isnan x = true -> PrimFloat.leb x y = false.
-Proof.
-  rewrite go_isnan_equiv, leb_equiv. destruct (Prim2B x); try discriminate. reflexivity.
-Qed.
-
-Lemma leb_abs_pi x :
-  PrimFloat.leb (PrimFloat.abs x) PI = true <-> nonnan x /\ - rpi <= rank x <= rpi.
-Proof.
-  split.
-  - intros H. destruct (go_isnan x) eqn:N.
-    + rewrite leb_nan_l in H by (rewrite isnan_abs; exact N). discriminate.
-    + split; [exact N|]. apply leb_true_iff in H; [|apply nonnan_abs; exact N|reflexivity].
-      rewrite rank_abs in H. fold rpi in H. unfold Rabs in H.
-      destruct (Rcase_abs (rank x)); lra.
-  - intros [N H]. apply leb_true_iff; [apply nonnan_abs; exact N|reflexivity|].
-    rewrite rank_abs. fold rpi. unfold Rabs. destruct (Rcase_abs (rank x)); lra.
-Qed.
-
-(** * Specification side: points, validity, membership (no reference to the code) *)
-Definition inrange (x : R) : Prop := - rpi <= x <= rpi.
-(** a float that denotes a point of the circle *)
-Definition vpt (p : PrimFloat.float) : Prop := nonnan p /\ inrange (rank p).
-(** -pi and pi are the same point; pi is the normal form *)
-Definition normR (x : R) : R := if Req_EM_T x (- rpi) then rpi else x.
-Lemma normR_cases x : (x = - rpi /\ normR x = rpi) \/ (x <> - rpi /\ normR x = x).
-Proof. unfold normR. destruct (Req_EM_T x (- rpi)); [left|right]; auto. Qed.
-
-(** membership of a normalised point x in the interval with endpoint values lo, hi *)
-Definition memR (lo hi x : R) : Prop :=
-  ~ (lo = rpi /\ hi = - rpi) /\
-  ((lo <= hi /\ lo <= x <= hi) \/ (hi < lo /\ (lo <= x \/ x <= hi))).
-Definition mem_s1 (i : s1_Interval) (x : R) : Prop :=
-  memR (rank (s1_Interval_Lo i)) (rank (s1_Interval_Hi i)) (normR x).
-(** membership of a float point *)
-Definition mem_s1f (i : s1_Interval) (p : PrimFloat.float) : Prop := mem_s1 i (rank p).
-
-Definition valid_s1 (i : s1_Interval) : Prop :=
-  vpt (s1_Interval_Lo i) /\ vpt (s1_Interval_Hi i) /\
-  (rank (s1_Interval_Lo i) = - rpi -> rank (s1_Interval_Hi i) = rpi) /\
-  (rank (s1_Interval_Hi i) = - rpi -> rank (s1_Interval_Lo i) = rpi).
-
-(** * Reflection of the code's elementary tests *)
-Ltac bool_split :=
-  repeat match goal with
-  | H : andb _ _ = true |- _ => apply andb_true_iff in H; destruct H
-  | H : andb _ _ = false |- _ => apply andb_false_iff in H; destruct H
-  | H : orb _ _ = true |- _ => apply orb_true_iff in H; destruct H
-  | H : orb _ _ = false |- _ => apply orb_false_iff in H; destruct H
-  | H : negb _ = true |- _ => apply negb_true_iff in H
-  | H : negb _ = false |- _ => apply negb_false_iff in H
-  end.
-Ltac if_split :=
-  repeat match goal with
-  | |- context [if ?c then _ else _] => destruct c eqn:?
-  | H : context [if ?c then _ else _] |- _ => destruct c eqn:?
-  end.
-(** decide a boolean goal built from comparisons by cases on every comparison *)
-Ltac cmp_cases :=
-  repeat match goal with
-  | |- context [PrimFloat.leb ?a ?b] => destruct (PrimFloat.leb a b) eqn:?
-  | |- context [PrimFloat.ltb ?a ?b] => destruct (PrimFloat.ltb a b) eqn:?
-  | |- context [PrimFloat.eqb ?a ?b] => destruct (PrimFloat.eqb a b) eqn:?
-  end.
-Ltac pi_consts :=
-  change (0x1.921fb54442d18p+01)%float with PI in *;
-  change (-0x1.921fb54442d18p+01)%float with NPI in *.
-Ltac to_R :=
-  float_cmp_to_R; rewrite ?rank_NPI in *; fold rpi in *.
-
-Lemma valid_iff i : s1_Interval_IsValid i = true <-> valid_s1 i.
-Proof.
-  destruct i as [lo hi]. unfold s1_Interval_IsValid, valid_s1, vpt, inrange. simpl. pi_consts.
-  split.
-  - intros H. bool_split;
-    repeat match goal with H : PrimFloat.leb (PrimFloat.abs _) PI = true |- _ =>
-      apply leb_abs_pi in H; destruct H end;
-    to_R; repeat split; try assumption; try lra; intros; lra.
-  - intros [[Nl Rl] [[Nh Rh] [H1 H2]]].
-    assert (A1 : PrimFloat.leb (PrimFloat.abs lo) PI = true) by (apply leb_abs_pi; split; auto).
-    assert (A2 : PrimFloat.leb (PrimFloat.abs hi) PI = true) by (apply leb_abs_pi; split; auto).
-    rewrite A1, A2. simpl.
-    cmp_cases; simpl; try reflexivity; to_R; exfalso; lra.
-Qed.
-
-(** * Turning a boolean test (compound of float comparisons) into a formula over ranks *)
-Lemma true_eq_true : (true = true) <-> True. Proof. tauto. Qed.
-Lemma false_eq_true : (false = true) <-> False. Proof. split; [discriminate|tauto]. Qed.
-Lemma true_eq_false : (true = false) <-> False. Proof. split; [discriminate|tauto]. Qed.
-Lemma false_eq_false : (false = false) <-> True. Proof. tauto. Qed.
-
-Ltac nn := assumption || reflexivity.
-Ltac reflectR E :=
-  repeat first
-  [ rewrite andb_true_iff in E | rewrite andb_false_iff in E
-  | rewrite orb_true_iff in E | rewrite orb_false_iff in E
-  | rewrite negb_true_iff in E | rewrite negb_false_iff in E
-  | match type of E with
-    | context [PrimFloat.leb ?a ?b = true] => rewrite (leb_true_iff a b ltac:(nn) ltac:(nn)) in E
-    | context [PrimFloat.leb ?a ?b = false] => rewrite (leb_false_iff a b ltac:(nn) ltac:(nn)) in E
-    | context [PrimFloat.ltb ?a ?b = true] => rewrite (ltb_true_iff a b ltac:(nn) ltac:(nn)) in E
-    | context [PrimFloat.ltb ?a ?b = false] => rewrite (ltb_false_iff a b ltac:(nn) ltac:(nn)) in E
-    | context [PrimFloat.eqb ?a ?b = true] => rewrite (eqb_true_iff a b ltac:(nn) ltac:(nn)) in E
-    | context [PrimFloat.eqb ?a ?b = false] => rewrite (eqb_false_iff a b ltac:(nn) ltac:(nn)) in E
-    end ];
-  rewrite ?rank_NPI in E; fold rpi in E.
-Ltac reflectG :=
-  repeat first
-  [ rewrite andb_true_iff | rewrite andb_false_iff
-  | rewrite orb_true_iff | rewrite orb_false_iff
-  | rewrite negb_true_iff | rewrite negb_false_iff
-  | match goal with
-    | |- context [PrimFloat.leb ?a ?b = true] => rewrite (leb_true_iff a b ltac:(nn) ltac:(nn))
-    | |- context [PrimFloat.leb ?a ?b = false] => rewrite (leb_false_iff a b ltac:(nn) ltac:(nn))
-    | |- context [PrimFloat.ltb ?a ?b = true] => rewrite (ltb_true_iff a b ltac:(nn) ltac:(nn))
-    | |- context [PrimFloat.ltb ?a ?b = false] => rewrite (ltb_false_iff a b ltac:(nn) ltac:(nn))
-    | |- context [PrimFloat.eqb ?a ?b = true] => rewrite (eqb_true_iff a b ltac:(nn) ltac:(nn))
-    | |- context [PrimFloat.eqb ?a ?b = false] => rewrite (eqb_false_iff a b ltac:(nn) ltac:(nn))
-    end ];
-  rewrite ?rank_NPI; fold rpi.
-(** one [destruct ... eqn] per [if], each condition reflected at once *)
-Ltac if_reflect :=
-  repeat match goal with
-  | |- context [if ?c then _ else _] =>
-      let E := fresh "E" in destruct c eqn:E
-  | H : context [if ?c then _ else _] |- _ =>
-      let E := fresh "E" in destruct c eqn:E
-  end;
-  repeat match goal with
-  | H : ?T |- _ => match T with context [@eq bool _ _] => progress reflectR H end
-  end.
-
-Ltac s1_unfold :=
-  unfold s1_Interval_Union, s1_Interval_Intersection, s1_Interval_Contains,
-    s1_Interval_ContainsInterval, s1_Interval_Intersects, s1_Interval_AddPoint,
-    s1_Interval_Project, s1_Interval_Complement, s1_IntervalFromPointPair,
-    s1_IntervalFromEndpoints, s1_Interval_InteriorContains, s1_Interval_InteriorIntersects,
-    s1_Interval_InteriorContainsInterval, s1_Interval_Invert,
-    s1_Interval_fastContains, s1_Interval_IsInverted, s1_Interval_IsEmpty, s1_Interval_IsFull,
-    s1_EmptyInterval, s1_FullInterval, set_s1_Interval_Lo, set_s1_Interval_Hi in *;
-  cbn [s1_Interval_Lo s1_Interval_Hi] in *; pi_consts.
-
-(** open a validity hypothesis into facts about ranks *)
-Ltac open_valid :=
-  repeat match goal with
-  | H : valid_s1 (mk_s1_Interval _ _) |- _ =>
-      let N1 := fresh "N" in let R1 := fresh "R" in let N2 := fresh "N" in let R2 := fresh "R" in
-      let V1 := fresh "V" in let V2 := fresh "V" in
-      destruct H as [[N1 R1] [[N2 R2] [V1 V2]]]; cbn [s1_Interval_Lo s1_Interval_Hi] in *
-  | H : vpt _ |- _ => let N1 := fresh "N" in let R1 := fresh "R" in destruct H as [N1 R1]
-  end; unfold inrange in *; let P := fresh "Ppos" in pose proof rpi_pos as P.
-Ltac spec_unfold := unfold mem_s1f, mem_s1, memR, valid_s1, vpt, inrange in *; cbn [s1_Interval_Lo s1_Interval_Hi] in *.
-
-Lemma normR_range x : inrange x -> - rpi < normR x <= rpi.
-Proof. unfold inrange. pose proof rpi_pos. destruct (normR_cases x) as [[? ->]|[? ->]]; lra. Qed.
-Lemma normR_idem x : - rpi < x <= rpi -> normR x = x.
-Proof. intros. destruct (normR_cases x) as [[? ?]|[? ->]]; lra. Qed.
-
-(** the code's normalisation of a float point is [normR] *)
-Lemma norm_float p : nonnan p ->
-  let p' := if PrimFloat.eqb p NPI then PI else p in
-  nonnan p' /\ rank p' = normR (rank p).
-Proof.
-  intros N. simpl. destruct (PrimFloat.eqb p NPI) eqn:E; reflectR E.
-  - split; [reflexivity|]. destruct (normR_cases (rank p)) as [[? ->]|[? ?]]; [reflexivity|lra].
-  - split; [assumption|]. destruct (normR_cases (rank p)) as [[? ?]|[? ->]]; [lra|reflexivity].
-Qed.
-
-(** * Contains is membership *)
-Lemma s1_contains_mem i p : valid_s1 i -> vpt p ->
-  (s1_Interval_Contains i p = true <-> mem_s1f i p).
-Proof.
-  destruct i as [lo hi]. intros Hv [Np Rp]. open_valid.
-  unfold s1_Interval_Contains. pi_consts.
-  destruct (norm_float p Np) as [N' E']. simpl in N', E'.
-  set (p' := if PrimFloat.eqb p NPI then PI else p) in *. clearbody p'.
-  spec_unfold. rewrite <- E'. s1_unfold.
-  split.
-  - intros H. if_reflect; reflectR H; lra.
-  - intros H. if_reflect; reflectG; lra.
-Qed.
-
-(** common opening: two valid operands, a real point of the circle replaced by its
-    normal form y in (-pi,pi] *)
-Ltac open2 a b :=
-  destruct a as [al ah], b as [bl bh]; intros Ha Hb; open_valid.
-Ltac norm_point x Hx :=
-  let Hy := fresh "Hy" in
-  pose proof (normR_range x Hx) as Hy; unfold mem_s1 in *;
-  generalize dependent (normR x); clear Hx; intros y Hy.
-Ltac finish := spec_unfold; cbn [s1_Interval_Lo s1_Interval_Hi] in *; rewrite ?rank_NPI in *; fold rpi in *;
-  repeat split; try assumption; try reflexivity; try lra.
-
-(** * IsEmpty / IsFull *)
-Lemma s1_isempty_spec i : valid_s1 i ->
-  (s1_Interval_IsEmpty i = true <-> forall x, inrange x -> ~ mem_s1 i x).
-Proof.
-  destruct i as [lo hi]. intros Hv. open_valid. s1_unfold. split.
-  - intros E x Hx. reflectR E. norm_point x Hx. spec_unfold. lra.
-  - intros Hall. reflectG.
-    assert (A : inrange (rank lo)) by (unfold inrange; lra).
-    pose proof (Hall (rank lo) A) as B. unfold mem_s1, memR in B.
-    cbn [s1_Interval_Lo s1_Interval_Hi] in B.
-    destruct (normR_cases (rank lo)) as [[? Hn]|[? Hn]]; rewrite Hn in B; lra.
-Qed.
-
-Lemma s1_isfull_spec i : valid_s1 i ->
-  (s1_Interval_IsFull i = true <-> forall x, inrange x -> mem_s1 i x).
-Proof.
-  destruct i as [lo hi]. intros Hv. open_valid. s1_unfold. split.
-  - intros E x Hx. reflectR E. norm_point x Hx. spec_unfold. lra.
-  - intros Hall. reflectG.
-    (* a non-full valid interval misses a point: probe pi and the midpoint of the gap *)
-    assert (A : inrange rpi) by (unfold inrange; lra).
-    pose proof (Hall rpi A) as B. unfold mem_s1, memR in B.
-    cbn [s1_Interval_Lo s1_Interval_Hi] in B. rewrite (normR_idem rpi) in B by lra.
-    destruct (Rle_dec (rank lo) (rank hi)) as [L|L].
-    + (* not inverted and contains pi: hi = pi; probe a point below lo *)
-      assert (A2 : inrange ((rank lo + - rpi) / 2)) by (unfold inrange; lra).
-      pose proof (Hall _ A2) as B2. unfold mem_s1, memR in B2.
-      cbn [s1_Interval_Lo s1_Interval_Hi] in B2.
-      destruct (normR_cases ((rank lo + - rpi) / 2)) as [[? Hn]|[? Hn]]; rewrite Hn in B2; lra.
-    + assert (A2 : inrange ((rank lo + rank hi) / 2)) by (unfold inrange; lra).
-      pose proof (Hall _ A2) as B2. unfold mem_s1, memR in B2.
-      cbn [s1_Interval_Lo s1_Interval_Hi] in B2.
-      destruct (normR_cases ((rank lo + rank hi) / 2)) as [[? Hn]|[? Hn]]; rewrite Hn in B2; lra.
-Qed.
-
-Lemma s1_empty_valid : valid_s1 s1_EmptyInterval.
-Proof. apply valid_iff. reflexivity. Qed.
-Lemma s1_full_valid : valid_s1 s1_FullInterval.
-Proof. apply valid_iff. reflexivity. Qed.
-Lemma s1_empty_isempty : s1_Interval_IsEmpty s1_EmptyInterval = true.
-Proof. reflexivity. Qed.
-Lemma s1_full_isfull : s1_Interval_IsFull s1_FullInterval = true.
-Proof. reflexivity. Qed.
-
-(** * Union *)
-Lemma s1_union_valid a b : valid_s1 a -> valid_s1 b -> valid_s1 (s1_Interval_Union a b).
-Proof.
-  open2 a b. s1_unfold. if_reflect; finish.
-Qed.
-
-Lemma s1_union_sound a b x : valid_s1 a -> valid_s1 b -> inrange x ->
-  mem_s1 a x \/ mem_s1 b x -> mem_s1 (s1_Interval_Union a b) x.
-Proof.
-  open2 a b. intros Hx. norm_point x Hx. intros Hm. s1_unfold. if_reflect; (spec_unfold; destruct Hm as [[Hm1 [Hm|Hm]]|[Hm1 [Hm|Hm]]]; finish).
-Qed.
-
+(** The s1.Interval lemmas C10 builds on.  They were developed for C19; since Proofs/C19_S1*.v
+    landed this file is only a re-export (it used to be a snapshot). *)
+From Geo Require Export Proofs.C19_S1 Proofs.C19_S1_Union.
